@@ -7,9 +7,16 @@ open C00mc
 let max_bits = 15
 
 (* (as const ..) applied to something that is not a literal: cvc5 1.0.3 refuses it *)
-let nonvalue_const_array (sy : sys) : bool =
-  List.exists (fun e -> List.exists (function ArrayConstant (BVLiteral (_, _), _, _) -> false | ArrayConstant (_, _, _) -> true | _ -> false) (subterms e))
-    (all_exprs sy)
+let has_nonvalue_aconst (e : expr) : bool =
+  List.exists (function ArrayConstant (BVLiteral (_, _), _, _) -> false | ArrayConstant (_, _, _) -> true | _ -> false) (subterms e)
+
+let nonvalue_const_array (sy : sys) : bool = List.exists has_nonvalue_aconst (all_exprs sy)
+
+(* the same question about the script the encoding produces: a literal that is a constraint or bad
+   state is a signal and is replaced by its step symbol, also below (as const ..) *)
+let script_nonvalue_const_array (sy : sys) (nm : expr -> char list) (n : int) : bool =
+  let sc = script Current (enc_new sy nm) N0 (N.to_nat (n_of_int n)) in
+  List.exists (function DefineFun (_, _, b) -> has_nonvalue_aconst b | DeclareConst (_, _) -> false) sc
 
 let event_of_sexp (x : Sexp.t) : event =
   match x with
@@ -93,12 +100,15 @@ let handle (x : Sexp.t) : string =
             incr n_runs;
             let m = Sexp.atom m in
             let (cls, d) = mismatch ("Err: " ^ String.escaped (String.sub m 0 (min 160 (String.length m)))) in
-            let cls = if cls <> "" then cls else if contains m "expected a value" then "as-const-of-non-value" else "other" in
+            let cls = if cls <> "" then cls
+              else if contains m "expected a value" || (r.r_profile = "cvc5" && script_nonvalue_const_array the_sys nm k) then "as-const-of-non-value"
+              else "other" in
             set_fail ((if r.r_profile = "cvc5" then "cvc5-rejects:" else "err:") ^ cls) d
         | Sexp.List [Sexp.Atom "hang"; m] ->
             incr n_runs;
             let (cls, d) = mismatch ("NO ANSWER (the library spins after the solver exited): " ^ Sexp.atom m) in
-            let cls = if cls <> "" then cls else if nonvalue_const_array the_sys then "as-const-of-non-value" else "other" in
+            let cls = if cls <> "" then cls
+              else if nonvalue_const_array the_sys || script_nonvalue_const_array the_sys nm k then "as-const-of-non-value" else "other" in
             set_fail ((if r.r_profile = "cvc5" then "cvc5-rejects:" else "hang:") ^ cls) d
         | Sexp.List [Sexp.Atom "panic"; m] ->
             incr n_runs;
